@@ -232,7 +232,7 @@ Proof. unfold waiting. apply NoDup_map_filter. apply calls_ids. Qed.
 (* connections *)
 Definition live_step (c : N) (next : N) (e : event) (b : bool) : bool :=
   match e with
-  | EConnect => b || (next =? c)
+  | EConnect _ => b || (next =? c)
   | EDisconnect c' => b && negb (c' =? c)
   | _ => b
   end.
@@ -431,12 +431,34 @@ Proof.
   destruct (connected st (e_conn e) && negb (e_auto e)); reflexivity.
 Qed.
 
-Lemma fates_replay cf st o p : fates (replay_outs cf st o p) = map e_id (filter (fun e => negb (answered_in_created st e)) p.(p_entries)).
+Lemma deliver_fate cf names fdok replies o id from serial cl :
+  fate_of (snd (deliver cf names fdok replies o id from serial cl)) = [id].
 Proof.
-  unfold replay_outs. rewrite fates_flat_map. apply flat_map_single. intros e. unfold answered_in_created.
-  destruct (e_auto e), (connected st (e_conn e)); simpl; try reflexivity.
-  destruct (pol_deliver cf _ _); reflexivity.
+  unfold deliver. destruct (negb (pol_deliver cf names cl)); [reflexivity|].
+  destruct (msg_reply cf cl && (max_replies cf <=? count_replies from replies)); [reflexivity|].
+  destruct (msg_fd cf cl && negb fdok); reflexivity.
 Qed.
+
+Lemma fates_replay_gen cf st names fdok o : forall es replies,
+  fates (snd (replay cf st names fdok o replies es)) = map e_id (filter (fun e => negb (answered_in_created st e)) es).
+Proof.
+  induction es as [|e r IH]; intros replies; [reflexivity|]. cbn [replay filter].
+  assert (answered_in_created st e = connected st (e_conn e) && negb (e_auto e)) as Ha by reflexivity. rewrite Ha. clear Ha.
+  destruct (e_auto e) eqn:Ea, (connected st (e_conn e)) eqn:Ec; cbn [andb negb map].
+  - destruct (deliver cf names fdok replies o (e_id e) (e_conn e) (e_serial e) (e_class e)) as [r1 x] eqn:D.
+    specialize (IH r1). destruct (replay cf st names fdok o r1 r) as [r2 xs]. cbn [snd] in *.
+    unfold fates in *. cbn [flat_map]. rewrite IH.
+    pose proof (deliver_fate cf names fdok replies o (e_id e) (e_conn e) (e_serial e) (e_class e)) as F. rewrite D in F. cbn [snd] in F.
+    rewrite F. reflexivity.
+  - specialize (IH replies). destruct (replay cf st names fdok o replies r) as [r2 xs]. cbn [snd] in *.
+    unfold fates in *. cbn [flat_map fate_of app]. rewrite IH. reflexivity.
+  - apply IH.
+  - specialize (IH replies). destruct (replay cf st names fdok o replies r) as [r2 xs]. cbn [snd] in *.
+    unfold fates in *. cbn [flat_map fate_of app]. rewrite IH. reflexivity.
+Qed.
+
+Lemma fates_replay cf st o p : fates (snd (replay_outs cf st o p)) = map e_id (filter (fun e => negb (answered_in_created st e)) p.(p_entries)).
+Proof. unfold replay_outs. apply fates_replay_gen. Qed.
 
 Lemma fates_fail st er p : fates (fail_outs st er p) = ids_of p.
 Proof.
